@@ -20,3 +20,11 @@ func VerifNewCacheOfSmall(n int, dflt time.Duration, ec EvictedCallbackOf[string
 	c.items.(*xsync.MapOf[string, itemOf[interface{}]]).VerifShrinkTo(n)
 	return c
 }
+
+// VerifNewMapOfWithHasher exposes xsync.NewMapOfWithHasher to the external key-type catalogue harness.
+func VerifNewMapOfWithHasher[K comparable, V any](h func(K, uint64) uint64) MapOf[K, V] {
+	return xsync.NewMapOfWithHasher[K, V](h)
+}
+
+// VerifDefaultHasher exposes the default hasher for K.
+func VerifDefaultHasher[K comparable]() func(K, uint64) uint64 { return xsync.VerifDefaultHasher[K]() }
